@@ -327,7 +327,62 @@ def check_target_and_anyof(h: Harness):
                     f"{r.desc}: counter at the checks = {r.counts}, best fitness at the checks = {r.comps}", replay)
 
 
+def check_simplegp(h: Harness):
+    """the geml wrapper builds its budget from `target_fitness`, `max_time`, `max_evaluations`: the search it runs must
+    stop at the first check at which the target is hit (any target value, zero included) or the evaluation budget is
+    used up.  The budget the wrapper built is spied on; the stop is judged by the same Lean predicate as AnyOf."""
+    import pargrammar
+    from geml.simplegp import SimpleGP
+    from props.eval_common import Recording
+    g = pargrammar.grammar()
+    for target_u in (0, 0, 4000000, -350000, None):            # in units of 1e-5 (0 twice: once as int, once as float)
+        for minimize in (True, False):
+            for hit_after in (0, 7):
+                pop, n = 4, 40
+                target = None if target_u is None else target_u * UNIT
+                if target_u == 0 and hit_after == 7:
+                    target = 0.0
+                elif target_u == 0:
+                    target = 0
+                calls = {"n": 0}
+                bad = (target if target is not None else 0.0) + (1000.0 if minimize else -1000.0)
+
+                def ff(p, calls=calls, target=target, bad=bad, hit_after=hit_after):
+                    calls["n"] += 1
+                    if target is not None and calls["n"] > hit_after:
+                        return float(target)
+                    return bad - (calls["n"] % 5 if minimize else -(calls["n"] % 5))
+                desc = (f"SimpleGP(target_fitness={target!r}, max_evaluations={n}, max_time=60, population_size={pop}, minimize={minimize}); "
+                        f"the fitness function returns the target from call {hit_after + 1} on")
+                try:
+                    sgp = SimpleGP(ff, g, minimize=minimize, max_depth=4, target_fitness=target, max_time=60, max_evaluations=n,
+                                   population_size=pop, elitism=1, novelty=1, seed=3)
+                    spy = SpyBudget(sgp.gp.budget, Recording(), 400)
+                    sgp.gp.budget = spy
+                    stopped = True
+                    try:
+                        sgp.gp.search()
+                    except CheckCap:
+                        stopped = False
+                except Exception as e:  # noqa: BLE001
+                    h.fail("SimpleGP.search", "raises", f"{desc}: raised {type(e).__name__}: {e}", {"target": target, "minimize": minimize})
+                    continue
+                h.count("simplegp:" + ("no-target" if target is None else "target"))
+                counts = [c["count"] for c in spy.checks]
+                comps = [None if c["comp"] is None else to_units(c["comp"], UNIT) for c in spy.checks]
+                h.seen(f"simplegp:{target_u}:{minimize}:{hit_after}")
+                replay = {"target": target, "minimize": minimize, "hit_after": hit_after}
+                if not stopped:
+                    h.fail("SimpleGP.search", "never-terminates", f"{desc}: still running after {len(counts)} budget checks, counter {counts[-3:]}", replay)
+                    continue
+                # no target: an unreachable one for the predicate
+                v = target_u if target_u is not None else 10**9
+                h.holds("SimpleGP.build_budget", "anyof-stop-wrong", ["prop_anyof", n, v, counts, comps],
+                        f"{desc}: evaluation counter at the budget checks = {counts}, best fitness (units of 1e-5) at the checks = {comps}", replay)
+
+
 def run(h: Harness):
     check_evaluation_budgets(h)
     check_target_and_anyof(h)
     check_parallel_evaluator(h)
+    check_simplegp(h)
